@@ -362,7 +362,9 @@ func (n *Node) monAfter(what string, in *Payload, pre apiPre, quietCheck bool) {
 	m := n.monFor(c.BlockIndex)
 
 	// ---- C10: an undecided validator has a timer for its epoch
-	if n.isValidator() && !c.BlockSent() {
+	// ("undecided" is judged from the application's ledger, not from the library's own BlockSent flag: a node that
+	// believes it has delivered a block which the application never accepted is exactly a lost wake-up)
+	if n.isValidator() && n.height < c.BlockIndex {
 		t := n.t
 		switch {
 		case !t.armed:
